@@ -127,6 +127,7 @@ static void suspend_resume()
     L = Ledger{};
     g = &L;
     int pi = pmc_choose(2, 0);
+    int again = pmc_choose(2, 0);    // 1: suspend; resume; suspend back to back before the work is queued
     pmc_on_stuck(on_stuck);
     rt::config c;
     c.workers = 2;
@@ -137,6 +138,11 @@ static void suspend_resume()
     g_phase = 2;
     pika::suspend();
     PMC_ASSERT(L.all_done(0, 2), "suspend-returned-early", "suspend() returned while submitted work was unfinished");
+    if (again)
+    {
+        pika::resume();
+        pika::suspend();    // must not return before every worker sleeps again
+    }
     L.in_window = 1;
     submit_chain(2, 3);                       // queued while the runtime sleeps
     for (int i = 0; i < 3; ++i) sched_yield();    // give (wrongly) awake workers a chance
@@ -149,7 +155,7 @@ static void suspend_resume()
     PMC_ASSERT(L.all_done(2, 4), "queued-work-lost", "work queued during suspension did not run after resume(): left = %d %d", L.left[2], L.left[3]);
     g_phase = 5;
     rt::stop();
-    pmc_outcome("ok");
+    pmc_outcome("again=%d", again);
 }
 
 int main(int argc, char** argv)
@@ -164,7 +170,7 @@ int main(int argc, char** argv)
     static const char* assumptions[] = {"sequentially consistent interleavings only", "1-2 worker threads; policies local-priority-fifo, static-priority, abp-priority-lifo, local"};
     pmc_config cfg{};
     cfg.property_id = "C05";
-    cfg.rule = "life-cycle histories {start, submit chains that spawn, wait, finalize, stop, restart with another configuration and an entry function, stop entered before finalize with an external submitter, suspend, submit, resume} x policies (data choices) x all schedules within the deviation bound";
+    cfg.rule = "life-cycle histories {start, submit chains that spawn, wait, finalize, stop, restart with another configuration and an entry function, stop entered before finalize with an external submitter, suspend, [resume, suspend,] submit, resume} x policies (data choices) x all schedules within the deviation bound";
     cfg.assumptions = assumptions;
     cfg.n_assumptions = 2;
     cfg.warmup = rt::warmup;
